@@ -79,6 +79,8 @@ func main() {
 		fs.IntVar(&r.slowT, "st", 30, "fallback solver timeout (s)")
 		_ = fs.Parse(os.Args[2:])
 		os.Exit(runCheck(r))
+	case "sweep":
+		os.Exit(runSweep(os.Args[2:]))
 	default:
 		fmt.Fprintln(os.Stderr, "unknown command", os.Args[1])
 		os.Exit(2)
@@ -569,4 +571,72 @@ func (e *Engine) lemmaQuery(l *Lemma) (q string, err error) {
 	asserts = append(asserts, ex.assumps...)
 	asserts = append(asserts, Not(goal))
 	return SMTQuery(asserts, nil, false), nil
+}
+
+// runSweep executes every function of the given packages with an empty contract, to find engine gaps.
+func runSweep(args []string) int {
+	fs := flag.NewFlagSet("sweep", flag.ExitOnError)
+	repo := fs.String("repo", "/repo", "")
+	verif := fs.String("verif", "/verif", "")
+	only := fs.String("func", "", "")
+	_ = fs.Parse(args)
+	eng := NewEngine(*repo)
+	if err := eng.Load(fs.Args()); err != nil {
+		fmt.Println("load error:", err)
+		return 2
+	}
+	libs, _ := filepath.Glob(filepath.Join(*verif, "lib", "*.spec"))
+	for _, lf := range libs {
+		sf, err := ParseSpecFile(lf, "")
+		if err == nil {
+			_ = eng.AddSpecFile(sf)
+		}
+	}
+	var keys []string
+	for k, fn := range eng.funcsByKey {
+		if len(fn.Blocks) == 0 || fn.Pkg == nil || eng.ssaPkgs[fn.Pkg.Pkg.Path()] == nil || fn.Synthetic != "" {
+			continue
+		}
+		if *only != "" && !strings.Contains(k, *only) {
+			continue
+		}
+		keys = append(keys, k)
+	}
+	sort.Strings(keys)
+	okN, unsup, crash := 0, map[string]int{}, 0
+	for _, k := range keys {
+		func() {
+			defer func() {
+				if r := recover(); r != nil {
+					crash++
+					fmt.Printf("CRASH %s: %v\n", shortFunc(k), truncate(fmt.Sprint(r), 300))
+				}
+			}()
+			c := &Contract{Key: k, FullKey: k, PkgPath: eng.funcsByKey[k].Pkg.Pkg.Path(), LoopInv: map[int][]*Clause{}, LoopMod: map[int][]*SExpr{}, Opts: map[string]string{}}
+			fr := eng.VerifyFunc(c)
+			if fr.Err != nil {
+				msg := fr.Err.Error()
+				if i := strings.Index(msg, " (at "); i > 0 {
+					msg = msg[:i]
+				}
+				unsup[msg]++
+				return
+			}
+			okN++
+		}()
+	}
+	fmt.Printf("sweep: %d functions ok, %d crashed\n", okN, crash)
+	type kv struct {
+		k string
+		v int
+	}
+	var l []kv
+	for k, v := range unsup {
+		l = append(l, kv{k, v})
+	}
+	sort.Slice(l, func(i, j int) bool { return l[i].v > l[j].v })
+	for _, x := range l {
+		fmt.Printf("  %4d  %s\n", x.v, x.k)
+	}
+	return 0
 }
